@@ -23,7 +23,8 @@ FLOW_COLS = {"line": {"p_f": "p_from_mw", "q_f": "q_from_mvar", "p_t": "p_to_mw"
                        "i_f": "i_hv_ka", "i_t": "i_lv_ka"}}
 ALTS = (("irwls", {}), ("lp", {}), ("wls_with_zero_constraint", {"zero_injection": "no_inj_bus"}))
 LP_ON = ("none", "all_but_i", "all")
-TLC_FIELDS = ("s", "pf", "est", "ref_ord", "ref_red", "bad", "z", "rows", "alts")
+TLC_FIELDS = ("s", "wind", "pf", "est", "ref_ord", "ref_red", "bad", "z", "rows", "alts")
+RATED = {"hv": 1000, "lv": 1000}
 N_LEVELS = 4
 _BASE = {}
 
@@ -39,9 +40,12 @@ def level_params(tpl, lvl, seed):
             "shift": 150.0 if (tpl == "T4" and lvl == N_LEVELS) else 0.0}
 
 
-def base_net(tpl, lvl, seed):
-    """Template of EstimationDef.tla with a converged power flow (the true state)."""
-    key = (tpl, lvl, seed)
+def base_net(tpl, lvl, seed, wind=None):
+    """Template of EstimationDef.tla with a converged power flow (the true state).  wind = the spec's Wind(s.wv): rated
+    voltage of the transformer's hv / lv winding in per mille of the nominal voltage of the connected bus."""
+    wind = wind or RATED
+    key = (tpl, lvl, seed, int(wind["hv"]), int(wind["lv"]))
+    tv = {"vn_hv": 20.0 * int(wind["hv"]) / 1000.0, "vn_lv": 0.4 * int(wind["lv"]) / 1000.0}
     if key in _BASE:
         return _BASE[key]
     import pandapower as pp
@@ -55,7 +59,7 @@ def base_net(tpl, lvl, seed):
         line(pp, net, 0, 1, km=2.0)
         line(pp, net, 1, 2, km=3.0)
         line(pp, net, 0, 2, km=2.5)
-        trafo(pp, net, 2, 3, shift_degree=par["shift"])
+        trafo(pp, net, 2, 3, shift_degree=par["shift"], **tv)
         pp.create_load(net, 1, 1.2 * sc[0], 0.3 * sc[1])
         pp.create_sgen(net, 1, 0.4 * sc[2], 0.05)
         pp.create_load(net, 3, 0.3 * sc[3], 0.08 * sc[3])      # bus 2 carries no injection (zero-injection bus)
@@ -64,7 +68,7 @@ def base_net(tpl, lvl, seed):
             pp.create_bus(net, vn, index=i)
         line(pp, net, 0, 1, km=2.0)
         line(pp, net, 0, 1, km=3.5)
-        trafo(pp, net, 1, 2)
+        trafo(pp, net, 1, 2, **tv)
         pp.create_load(net, 1, 0.8 * sc[0], 0.2 * sc[1])
         pp.create_load(net, 2, 0.3 * sc[2], 0.08 * sc[3])
     pp.create_ext_grid(net, 0, vm_pu=par["vm"])
@@ -106,6 +110,13 @@ def with_table(base, rows):
         pp.create_measurement(net, r["mt"], r["et"], row_value(base, r), STD[r["mt"]] * (2.0 if r["dup"] else 1.0),
                               r["el"], None if r["side"] == "none" else r["side"])
     return net
+
+
+def read_wind(net):
+    """rated winding voltages of the (only) transformer in per mille of the vn_kv of the buses it is connected to"""
+    t = net.trafo.iloc[0]
+    return {"hv": int(round(1000.0 * float(t.vn_hv_kv) / float(net.bus.at[int(t.hv_bus), "vn_kv"]))),
+            "lv": int(round(1000.0 * float(t.vn_lv_kv) / float(net.bus.at[int(t.lv_bus), "vn_kv"])))}
 
 
 def read_rows(net):
@@ -200,7 +211,7 @@ def bad_data(mnet):
 
 
 def est_only(job):
-    base, ok = base_net(job["tpl"], job["lvl"], job["seed"])
+    base, ok = base_net(job["tpl"], job["lvl"], job["seed"], job.get("wind"))
     r = run_estimate(with_table(base, job["rows"]))
     r["has"] = True
     return r
@@ -208,9 +219,9 @@ def est_only(job):
 
 def observe(job):
     """job = {tpl, lvl, seed, s, rows, observable, cls, alts} -> case without references"""
-    base, ok = base_net(job["tpl"], job["lvl"], job["seed"])
+    base, ok = base_net(job["tpl"], job["lvl"], job["seed"], job.get("wind"))
     case = {"tpl": job["tpl"], "lvl": job["lvl"], "seed": job["seed"], "s": job["s"], "table": job["rows"], "cls": job["cls"],
-            "pf": dict(project(base, "") if ok else EMPTY, ok=ok)}
+            "wind": read_wind(base), "pf": dict(project(base, "") if ok else EMPTY, ok=ok)}
     mnet = with_table(base, job["rows"])
     case["rows"] = read_rows(mnet)
     case["est"] = run_estimate(mnet)
@@ -240,9 +251,10 @@ def model_cfg(tier, tpl):
     cfg = cfg.replace('Tpl = "T4"', 'Tpl = "%s"' % tpl)
     if tier == "thorough":
         cfg = cfg.replace("MaxV = 1", "MaxV = 2").replace("Surplus = 0", "Surplus = 2")
+        cfg = cfg.replace('Winds = {"rated", "both_off"}', 'Winds = {"rated", "hv_off", "lv_off", "both_off"}')
         cfg = cfg.replace('Reds = {"none", "v_all", "p_inj", "pq_to", "p_from_q_to", "i_from", "all_but_i", "all"}',
                           'Reds = {"none", "v_all", "p_inj", "q_inj", "pq_from", "pq_to", "p_from_q_to", "i_from", "i_to", "all_but_i", "all"}')
-    if cfg.count("Surplus = 2") + cfg.count("Surplus = 0") != 1 or ("q_inj" in cfg) != (tier == "thorough"):
+    if cfg.count("Surplus = 2") + cfg.count("Surplus = 0") != 1 or ("hv_off" in cfg) != (tier == "thorough") or ("q_inj" in cfg) != (tier == "thorough"):
         from ..tla import MachineryError
         raise MachineryError("Estimation.cfg no longer matches the substitutions of model_cfg()")
     return cfg
@@ -266,7 +278,8 @@ def run(tier, seed, replay=None):
     cases = []
     if replay:
         c = replay["case"]
-        job = {"tpl": c["tpl"], "lvl": c["lvl"], "seed": c["seed"], "s": c["s"], "rows": c["table"],
+        c["s"].setdefault("wv", "rated")
+        job = {"tpl": c["tpl"], "lvl": c["lvl"], "seed": c["seed"], "s": c["s"], "rows": c["table"], "wind": c.get("wind", RATED),
                "observable": bool(c["bad"]["ran"]), "cls": c["cls"], "alts": bool(c["alts"])}
         case = observe(job)
         for k in ("ref_ord", "ref_red"):
@@ -288,6 +301,7 @@ def run(tier, seed, replay=None):
                 if tier == "thorough":     # one seeded operating point per core (all variants of a core share it)
                     lvl = 1 + random.Random("%s|%s" % (seed, json.dumps(s["core"], sort_keys=True))).randrange(N_LEVELS)
                 jobs.append({"tpl": tpl, "lvl": lvl, "seed": seed, "s": s, "rows": jsonable(st["out"]["rows"]),
+                             "wind": jsonable(st["out"]["wind"]),
                              "observable": bool(st["out"]["observable"]), "alts": tier == "thorough",
                              "cls": {"critical": not st["out"]["nocritical"], "df": int(st["out"]["df"])}})
         cases = pool_map(observe, jobs, procs=int(os.environ.get("VERIF_C19_PROCS", "16")))
@@ -319,6 +333,8 @@ def run(tier, seed, replay=None):
         c = cases[k]
         s = c["s"]
         feat = "red=%s,dup=%s,ord=%s" % (s["red"], s["dup"], s["ord"])
+        if s.get("wv", "rated") != "rated":       # level of the network, part of the class
+            feat += ",wind=%s" % s["wv"]
         if name == "C19_AltAlgorithms":
             feat = "alg=%s" % "+".join(a["alg"] for a in c["alts"] if a["acc"] and a["ok"] and a["alg"] != "lp")
         elif name in ("C19_NoBadDataRemoved", "C19_RnTestPasses"):      # classes computed by the spec (out.nocritical, out.df)
@@ -332,11 +348,14 @@ def run(tier, seed, replay=None):
         v.divergence("%s: structure %s (tpl %s): est.exc=%s z=%s alts=%s" % (
             name, c["s"], c["tpl"], c["est"]["exc"], c["z"], [(a["alg"], a["acc"], a["ok"], a["exc"]) for a in c["alts"]]))
     req = [c for c in cases if c["bad"]["ran"] and c["pf"]["ok"]]
-    if not replay:      # vacuity guard: the antecedents of every clause must occur in the run
+    # vacuity guard: the antecedents of every clause must occur in the run -- unless TLC already reported a violation that is
+    # not a known finding (an implementation that e.g. refuses every set makes the run "vacuous" BY violating C19_Success)
+    if not replay and not any(x["key"] not in v.known for x in v.violations):
         from ..tla import MachineryError
         n_ok = sum(c["est"]["ok"] for c in req)
         if not (n_ok and any(c["ref_ord"]["has"] and c["ref_ord"]["ok"] for c in req) and any(c["ref_red"]["has"] and c["ref_red"]["ok"] for c in req)
-                and any(not c["cls"]["critical"] for c in req) and any(c["cls"]["df"] >= 1 for c in req)):
+                and any(not c["cls"]["critical"] for c in req) and any(c["cls"]["df"] >= 1 for c in req)
+                and any(c["s"]["wv"] != "rated" and c["est"]["ok"] for c in req)):
             raise MachineryError("C19 run is vacuous: %d required cases, %d successful estimates" % (len(req), n_ok))
     alt_counts = {}
     for c in cases:
@@ -348,6 +367,8 @@ def run(tier, seed, replay=None):
         "traces_validated_against_impl": len(cases), "evaluations": len(cases), "exhaustive": True,
         "distinct_nontrivial": len({skey(c["tpl"], c["lvl"], c["s"]) for c in req if c["est"]["ok"] and
                                     (c["s"]["red"] != "none" or c["s"]["dup"] != "none" or c["s"]["ord"] != "created")}),
+        "offnominal_winding_cases": sum(1 for c in req if c["s"].get("wv", "rated") != "rated"),
+        "offnominal_winding_estimate_ok": sum(1 for c in req if c["s"].get("wv", "rated") != "rated" and c["est"]["ok"]),
         "rule": "every state of Estimation.tla (observable cores of templates T4/T3 x one user action per dimension up to "
                 "Depth) is created row by row and estimated; non-trivial = observable, estimate succeeded, and the table "
                 "differs from its core by redundancy, duplicates or order (so an invariance pair exists)",
@@ -366,6 +387,8 @@ def run(tier, seed, replay=None):
     }
     v.assumptions = [
         "templates T4 (ring of 3 lines + transformer) and T3 (2 parallel lines + transformer), one ext_grid, no shunts/switches",
+        "off-nominal rated winding voltages of the transformer (spec: Wind, +2.5 % hv / +5 % lv of the bus vn_kv) are instantiated "
+        "for the sets that contain a current magnitude at a transformer side (spec action Rewind); 3-winding transformers not in the templates",
         "observability = the spec's conservative sufficient predicate (one v + injection pairs at all buses but one, or "
         "one v + flow pairs on a spanning tree); other observable sets (e.g. mixed, current-only) are not required",
         "remove_bad_data must delete no row and chi2_analysis must not report bad data on every observable set; the return "
